@@ -38,6 +38,7 @@ func init() {
 		"vfExecLog":    vfExecLog,
 		"vfExecSet":    vfExecSet,
 		"vfTerminates": vfTerminates,
+		"vfTypeCheck":  vfTypeCheck,
 		"vfFileExists": vfFileExists,
 		"vfLoadResult": vfLoadResult,
 		"vfLoadDir":    vfLoadDir,
